@@ -133,6 +133,8 @@ def main():
         if pl or un:
             # proof-level only: arbitrate with the bounded unit, if registered
             arb = bymap.get(u.arb) if u.arb else None
+            if arb is None and u.loops:
+                arb = E.auto_arbiter(u)
             if arb is None:
                 inconclusive.append((u.name, 'only proof-level obligations failed (%s) and no bounded arbiter is registered'
                                      % ','.join(f['obligation'] for f in (pl + un)[:3])))
